@@ -27,7 +27,7 @@ func walk(cfg Config, lines []*Line) ([]map[string]any, error) {
 			}
 		}
 	}
-	out, err := s.call("WALK", listed, inst, map[string]any{})
+	out, err := s.call("WALK", listed, inst, map[string]any{}, s.pre)
 	if err != nil && strings.HasPrefix(err.Error(), "GO PANIC") {
 		// finding D14_gopd_panics_on_internal_accessor: on the objects for which the deviating specification
 		// expects the panic, the properties outside the table are recorded without descriptor
@@ -50,7 +50,7 @@ func walk(cfg Config, lines []*Line) ([]map[string]any, error) {
 				}
 			}
 		}
-		out, err = s.call("WALK", listed, inst, no)
+		out, err = s.call("WALK", listed, inst, no, s.pre)
 	}
 	if err != nil {
 		return nil, err
